@@ -12,7 +12,6 @@ import Mfi.Gen.Errors
 namespace Mfi.Bank
 open Mfi Mfi.Fx Mfi.Gen
 
-def U64MAX : Int := 18446744073709551615
 
 structure Bank where
   asv : Int                -- asset_share_value (bits)
@@ -187,26 +186,31 @@ def calcEmissions (period amount : Int) (decimals : Int) (rate : Int) : Res Int 
   let b ← math (div? a SECONDS_PER_YEAR)
   math (mul? b rate)
 
-/-- `BankAccountWrapper::claim_emissions(current_timestamp)` -/
-def claimEmissions (b : Bank) (bal : Balance) (now : Int) : Res (Bank × Balance) := do
+/-- which amount (if any) earns emissions: the match at the top of `claim_emissions` -/
+def emissionsBase (b : Bank) (bal : Balance) : Res (Option Int) := do
   let side ← getSide bal
   let lend := getFlag b.flags EMISSIONS_FLAG_LENDING_ACTIVE
   let borrow := getFlag b.flags EMISSIONS_FLAG_BORROW_ACTIVE
-  let amt? ← match side, lend, borrow with
-    | some .assets, true, _ => do let x ← assetAmount b bal.a; pure (some x)
-    | some .liabs, _, true => do let x ← liabAmount b bal.l; pure (some x)
-    | _, _, _ => (pure none : Res (Option Int))
+  match side, lend, borrow with
+  | some .assets, true, _ => (assetAmount b bal.a).map some
+  | some .liabs, _, true => (liabAmount b bal.l).map some
+  | _, _, _ => .ok none
+
+/-- the body of the `if let Some(balance_amount)` in `claim_emissions` -/
+def creditEmissions (b : Bank) (bal : Balance) (now amount : Int) : Res (Bank × Balance) :=
+  let lu := if bal.lastUpdate < MIN_EMISSIONS_START_TIME then now else bal.lastUpdate
+  if now - lu < 0 then merr E.MathError else do
+    let em ← calcEmissions (ofInt (now - lu)) amount (balanceDecimals b) (ofInt b.emissionsRate)
+    let e' ← math (add? bal.emis (min em b.emissionsRemaining))
+    let r' ← math (sub? b.emissionsRemaining (min em b.emissionsRemaining))
+    .ok ({ b with emissionsRemaining := r' }, { bal with emis := e', lastUpdate := now })
+
+/-- `BankAccountWrapper::claim_emissions(current_timestamp)` -/
+def claimEmissions (b : Bank) (bal : Balance) (now : Int) : Res (Bank × Balance) := do
+  let amt? ← emissionsBase b bal
   match amt? with
   | none => .ok (b, { bal with lastUpdate := now })
-  | some amount =>
-    let lu := if bal.lastUpdate < MIN_EMISSIONS_START_TIME then now else bal.lastUpdate
-    if now - lu < 0 then merr E.MathError else
-    let period := ofInt (now - lu)
-    let em ← calcEmissions period amount (balanceDecimals b) (ofInt b.emissionsRate)
-    let real := min em b.emissionsRemaining
-    let e' ← math (add? bal.emis real)
-    let r' ← math (sub? b.emissionsRemaining real)
-    .ok ({ b with emissionsRemaining := r' }, { bal with emis := e', lastUpdate := now })
+  | some amount => creditEmissions b bal now amount
 
 /-- position-counter bookkeeping shared by increase/decrease -/
 def updateCounts (b : Bank) (hadA hadL hasA hasL : Bool) : Bank :=
@@ -219,6 +223,24 @@ def updateCounts (b : Bank) (hadA hadL hasA hasL : Bool) : Bank :=
 inductive IncType | any | repayOnly | depositOnly | bypassDepositLimit deriving DecidableEq, Repr
 inductive DecType | withdrawOnly | borrowOnly | bypassBorrowLimit deriving DecidableEq, Repr
 
+/-- the `match operation_type` guard of `increase_balance_internal` -/
+def incGuard (t : IncType) (assetInc liabDec : Int) : Res Unit :=
+  match t with
+  | .repayOnly => chk (isZeroTol assetInc ZERO_AMOUNT_THRESHOLD) E.OperationRepayOnly
+  | .depositOnly => chk (isZeroTol liabDec ZERO_AMOUNT_THRESHOLD) E.OperationDepositOnly
+  | _ => .ok ()
+
+/-- the `match operation_type` guard of `decrease_balance_internal` -/
+def decGuard (t : DecType) (assetDec liabInc : Int) : Res Unit :=
+  match t with
+  | .withdrawOnly => chk (isZeroTol liabInc ZERO_AMOUNT_THRESHOLD) E.OperationWithdrawOnly
+  | .borrowOnly => chk (isZeroTol assetDec ZERO_AMOUNT_THRESHOLD) E.OperationBorrowOnly
+  | _ => .ok ()
+
+/-- "Only liquidation is allowed to bypass this check." -/
+def utilGuard (t : DecType) (b : Bank) : Res Unit :=
+  if t = .bypassBorrowLimit then .ok () else checkUtilization b
+
 /-- `increase_balance_internal` -/
 def increaseBalance (b0 : Bank) (bal0 : Balance) (now : Int) (delta : Int) (t : IncType) : Res (Bank × Balance) := do
   let (b, bal) ← claimEmissions b0 bal0 now
@@ -228,10 +250,7 @@ def increaseBalance (b0 : Bank) (bal0 : Balance) (now : Int) (delta : Int) (t : 
   let liabDec := min curL delta
   let d ← math (sub? delta curL)
   let assetInc := max d 0
-  match t with
-  | .repayOnly => chk (isZeroTol assetInc ZERO_AMOUNT_THRESHOLD) E.OperationRepayOnly
-  | .depositOnly => chk (isZeroTol liabDec ZERO_AMOUNT_THRESHOLD) E.OperationDepositOnly
-  | _ => pure ()
+  let _ ← incGuard t assetInc liabDec
   let aInc ← assetShares b assetInc
   let a' ← math (add? bal.a aInc)
   let b ← changeAssetShares b aInc (t == .bypassDepositLimit)
@@ -252,17 +271,14 @@ def decreaseBalance (b0 : Bank) (bal0 : Balance) (now : Int) (delta : Int) (t : 
   let assetDec := min curA delta
   let d ← math (sub? delta curA)
   let liabInc := max d 0
-  match t with
-  | .withdrawOnly => chk (isZeroTol liabInc ZERO_AMOUNT_THRESHOLD) E.OperationWithdrawOnly
-  | .borrowOnly => chk (isZeroTol assetDec ZERO_AMOUNT_THRESHOLD) E.OperationBorrowOnly
-  | _ => pure ()
+  let _ ← decGuard t assetDec liabInc
   let aDec ← assetShares b assetDec
   let a' ← math (add? bal.a (-aDec))
   let b ← changeAssetShares b (-aDec) false
   let lInc ← liabShares b liabInc
   let l' ← math (add? bal.l lInc)
   let b ← changeLiabShares b lInc (t == .bypassBorrowLimit)
-  if t != .bypassBorrowLimit then checkUtilization b
+  let _ ← utilGuard t b
   let bal := { bal with a := a', l := l' }
   let hasA := isPosTol bal.a ZERO_AMOUNT_THRESHOLD
   let hasL := isPosTol bal.l ZERO_AMOUNT_THRESHOLD
@@ -274,12 +290,12 @@ def withdrawAll (b0 : Bank) (bal0 : Balance) (now : Int) : Res (Bank × Balance 
   let total := bal.a
   let curA ← assetAmount b total
   let curL ← liabAmount b bal.l
-  chk (isPosTol curA ZERO_AMOUNT_THRESHOLD) E.NoAssetFound
-  chk (isZeroTol curL ZERO_AMOUNT_THRESHOLD) E.NoAssetFound
+  let _ ← chk (isPosTol curA ZERO_AMOUNT_THRESHOLD) E.NoAssetFound
+  let _ ← chk (isZeroTol curL ZERO_AMOUNT_THRESHOLD) E.NoAssetFound
   let bal' ← closeBalance bal true
   let b := { b with lendCnt := satI32 (b.lendCnt - 1) }
   let b ← changeAssetShares b (-total) false
-  checkUtilization b
+  let _ ← checkUtilization b
   let spl := floor curA
   let dust ← math (sub? curA spl)
   let f ← math (add? dust b.feeI)
@@ -292,8 +308,8 @@ def repayAll (b0 : Bank) (bal0 : Balance) (now : Int) : Res (Bank × Balance × 
   let total := bal.l
   let curL ← liabAmount b total
   let curA ← assetAmount b bal.a
-  chk (isPosTol curL ZERO_AMOUNT_THRESHOLD) E.NoLiabilityFound
-  chk (isZeroTol curA ZERO_AMOUNT_THRESHOLD) E.NoLiabilityFound
+  let _ ← chk (isPosTol curL ZERO_AMOUNT_THRESHOLD) E.NoLiabilityFound
+  let _ ← chk (isZeroTol curA ZERO_AMOUNT_THRESHOLD) E.NoLiabilityFound
   let bal' ← closeBalance bal true
   let b := { b with borrowCnt := satI32 (b.borrowCnt - 1) }
   let b ← changeLiabShares b (-total) false
@@ -308,8 +324,8 @@ def closeBalanceOp (b0 : Bank) (bal0 : Balance) (now : Int) : Res (Bank × Balan
   let (b, bal) ← claimEmissions b0 bal0 now
   let curL ← liabAmount b bal.l
   let curA ← assetAmount b bal.a
-  chk (isZeroTol curL ZERO_AMOUNT_THRESHOLD) E.IllegalBalanceState
-  chk (isZeroTol curA ZERO_AMOUNT_THRESHOLD) E.IllegalBalanceState
+  let _ ← chk (isZeroTol curL ZERO_AMOUNT_THRESHOLD) E.IllegalBalanceState
+  let _ ← chk (isZeroTol curA ZERO_AMOUNT_THRESHOLD) E.IllegalBalanceState
   let bal' ← closeBalance bal true
   .ok (b, bal')
 
